@@ -336,9 +336,9 @@ let run_map_case (idx : int) (toks : string list) =
   let show l = join "," (List.map (fun (k, v) -> Printf.sprintf "%d=%d" k v) (List.sort compare (List.map (fun (k, v) -> (int_of_n k, int_of_z v)) l))) in
   while peek t <> None do
     let op = match next t with
-      | "g" -> let r = num t in let s = num t in MGet (n_of_int r, n_of_int s)
-      | "s" -> let r = num t in let s = num t in let v = num t in MSet (n_of_int r, n_of_int s, z_of_int v)
-      | "d" -> let r = num t in let s = num t in MDefault (n_of_int r, n_of_int s)
+      | "g" | "G" | "M" | "B" -> let r = num t in let s = num t in MGet (n_of_int r, n_of_int s)   (* get / get_boxed / get_mut / get_boxed_mut: one abstract operation *)
+      | "s" | "S" -> let r = num t in let s = num t in let v = num t in MSet (n_of_int r, n_of_int s, z_of_int v)   (* set / set_boxed *)
+      | "d" | "D" -> let r = num t in let s = num t in MDefault (n_of_int r, n_of_int s)   (* get_or_set_default / _mut *)
       | "r" -> let kt = num t in let k = num t in MRead (n_of_int kt, n_of_int k)
       | "w" -> let kt = num t in let k = num t in let v = num t in MInsert (n_of_int kt, n_of_int k, z_of_int v)
       | "x" -> let kt = num t in let k = num t in MRemove (n_of_int kt, n_of_int k)
